@@ -16,6 +16,11 @@ def ext_literals(F, f):
 
 def run(ctx):
     _run(ctx)
+    ctx.delegate("C03", ["C03.stop"], "C08.seq",
+                 "without an index the complete reader still returns every pair: the iteration ends exactly at the declared length and "
+                 "the position counter advances by the size of each record", floor=3)
+    ctx.delegate("C10", ["C10.reject"], "C08.reject", "a refused shape write leaves the three entry counts equal: it changes no writer state", floor=1)
+    ctx.delegate("C04", ["C04.len"], "C08.count", "the .shx declares exactly the number of records written", floor=2)
     ctx.delegate("C09", ["C09.W5", "C09.ctor"], "C08.commit0",
                  "equal entry counts for every n including 0: a new writer is dirty (so drop emits both headers) and every "
                  "successful write leaves it dirty", floor=3)
